@@ -315,6 +315,14 @@ def ws(tokens: tuple[str, ...] | list[str]) -> tuple[str, str]:
     return "".join(WS_TOKENS[t][0] for t in tokens), "".join(WS_TOKENS[t][1] for t in tokens)
 
 
+def xml_attr_reported(literal: str) -> str:
+    """What an XML parser reports for attribute text made of plain characters, literal TAB/LF/CR and the three
+    character references of WS_TOKENS: line ends are normalised first (CR LF and a lone CR become LF - also when the CR
+    and the LF come from two adjacent tokens), then every literal TAB/LF becomes a space, then references are replaced."""
+    text = literal.replace("\r\n", "\n").replace("\r", "\n").replace("\n", " ").replace("\t", " ")
+    return text.replace("&#9;", "\t").replace("&#10;", "\n").replace("&#xD;", "\r")
+
+
 def ia_str(raw: int) -> str:
     return f"{raw >> 12}.{(raw >> 8) & 0xF}.{raw & 0xFF}"
 
@@ -407,9 +415,12 @@ def build_tree(project: Project, rng, shuffle_attrs: bool = False, order: str = 
                 if ga in itf.sender_format:
                     (lead_m, lead_r), (sep_m, sep_r), (trail_m, trail_r) = (ws(t) for t in itf.sender_format[ga])
                     strs = [ia_str(s) for s in senders]
-                    model = lead_m + sep_m.join(strs) + trail_m
+                    literal = lead_r + sep_r.join(strs) + trail_r
+                    # derived from the assembled text, not token by token: a raw CR token followed by a raw LF token
+                    # is ONE line end for the parser (false alarm at thorough seed 5 otherwise)
+                    model = xml_attr_reported(literal)
                     gnode.set("Senders", model)
-                    gnode.raw["Senders"] = (model, lead_r + sep_r.join(strs) + trail_r)
+                    gnode.raw["Senders"] = (model, literal)
                 else:
                     gnode.set("Senders", " ".join(ia_str(s) for s in senders))
             node.children.append(gnode)
